@@ -436,6 +436,26 @@ def rule_sib(ctx: Ctx) -> RuleReport:
                 rep.fail(Finding("C10-SIB", SZ, ex7.qual, "folder handler raises", f"`except {norm(h.type) if h.type else ''}` around the decoding of one folder raises inside the folder loop: a damaged folder makes the whole archive fail and every intact member is lost (a corrupt member must affect only itself)", line=raises[0].lineno))
             else:
                 rep.ok({"loop": ex7.qual, "damaged_folder": "skipped, the others are extracted"})
+    # every step of the loop that can refuse a folder (raises Bad7zFile, itself or through callees) sits inside that handler: a
+    # stream that ends early decodes without error and is only noticed when the members are cut out of it
+    def _may_raise(fi, depth=0, seen=None):
+        seen = seen if seen is not None else set()
+        if fi.key in seen or depth > 4:
+            return False
+        seen.add(fi.key)
+        if any(isinstance(n, ast.Raise) for n in walk_own(fi.node)):
+            return True
+        return any(_may_raise(g, depth + 1, seen) for c in calls_in(fi) for g in resolve_call(ctx.p, fi, c).funcs)
+
+    guarded = {id(x) for t in dtry if not any(isinstance(x, ast.Raise) for h in t.handlers for st in h.body for x in ast.walk(st)) for st in t.body for x in ast.walk(st)}
+    for c in [n for st in floop.body for n in ast.walk(st) if isinstance(n, ast.Call)]:
+        tg = [g for g in resolve_call(ctx.p, ex7, c).funcs if g.module.rel == SZ]
+        if not tg or not any(_may_raise(g) for g in tg):
+            continue
+        if id(c) in guarded:
+            rep.ok({"loop": ex7.qual, "fallible_step": norm(c.func), "inside_folder_handler": True})
+        else:
+            rep.fail(Finding("C10-SIB", SZ, ex7.qual, f"{norm(c.func)} outside the folder handler", f"`{short(c, 60)}` can refuse a folder (raises Bad7zFile) but is called outside the per-folder handler: a folder whose stream decodes to fewer bytes than its members need makes the whole archive fail and every intact member is lost", line=c.lineno))
     return rep
 
 
